@@ -2,7 +2,7 @@
 # trymutant.sh <Cxx> [mutant-name] [checks...]: confirm a sub-agent's mutant in its scratch worktree, then run checks against /repo with it applied
 ID=$1; NAME=${2:-m1}; shift; shift
 CHECKS=${@:-$ID}
-WT=/tmp/mut_$ID; OUT=/tmp/mut_${ID}_out
+WT=${WT:-/tmp/mut_$ID}; OUT=${OUT:-/tmp/mut_${ID}_out}
 set -u
 cd $WT || exit 9
 run_tests() { (cd $WT && PYTHONPATH=$WT/src /venv/bin/python -m pytest -q -p no:cacheprovider tests --ignore=tests/test_cli.py --deselect tests/test_benchmarks.py --deselect tests/test_demos.py 2>&1 | grep -E "^(FAILED|ERROR)" | sed 's/ - .*//' | sort); }
@@ -37,10 +37,10 @@ for c in $CHECKS; do
 done
 git -C /repo checkout -- . ; git -C /repo status --short
 cp $OUT/patch.diff $OUT/demo.py /verif/seeded/${ID}_$NAME/
-/venv/bin/python - "$ID" "$NAME" "$RES" <<'PY'
+/venv/bin/python - "$ID" "$NAME" "$RES" "$OUT" <<'PY'
 import json,sys
-i,n,res=sys.argv[1:4]
-m=json.load(open(f'/tmp/mut_{i}_out/meta.json'))
+i,n,res,out=sys.argv[1:5]
+m=json.load(open(f'{out}/meta.json'))
 m['confirmed']={'demo_exit_with_change':1,'demo_exit_without_change':0,'existing_tests':'same failing set with and without the change (baseline always_fail tests only)','how':'tools/trymutant.sh: ran the demo and the test suite in the scratch worktree with exactly patch.diff applied to a clean checkout and with it reverse-applied; then git -C /repo apply patch.diff, ran the listed checks, git -C /repo checkout -- .'}
 m['checks_run']=res.split()
 json.dump(m,open(f'/verif/seeded/{i}_{n}/meta.json','w'),indent=1)
